@@ -184,6 +184,11 @@ pub fn run_case(c: &Case, r: &mut Report, prop: &str) {
     };
     let mut cfg = ParserCfg { default_parser: true, ..Default::default() };
     if c.also_check_claim {
+        // ... and an expectation on ANOTHER claim that the token satisfies (the time validators must still all run)
+        cfg.expected.push(Claim::Custom("data".into(), json!("time-claim probe")));
+        if c.class.ends_with("+check_claim(other)") {
+            // only the other claim
+        } else
         if let Some(Value::String(s)) = &ev {
             cfg.expected.push(Claim::Exp(s.clone()));
         }
@@ -274,6 +279,9 @@ pub fn non_timestamps() -> Vec<Value> {
         json!("2999-02-29T00:00:00Z"), json!("2999-04-31T00:00:00Z"), json!("2999-00-10T00:00:00Z"), json!("2999-01-00T00:00:00Z"), json!("2999-01-01T24:00:00Z"), json!("2999-01-01T00:00:61Z"),
         json!("2999-01-01T00:00:00+00"), json!("2999-001T00:00:00Z"), json!("2999-W01-1T00:00:00Z"), json!("2999-01-01T00:00:00,5Z"), json!("2999-01-01T00:00.5Z"), json!("+002999-01-01T00:00:00Z"),
         json!("2999-01-01T00:00:00+25:00"), json!("2999-01-01T00:00:00+00:60"),
+        // objects that merely look like serde_json's private raw-value / number encodings
+        json!({"$serde_json::private::RawValue": "null"}), json!({"$serde_json::private::RawValue": "\"2999-01-01T00:00:00Z\""}), json!({"$serde_json::private::RawValue": "\"2001-01-01T00:00:00Z\""}),
+        json!({"$serde_json::private::Number": "4102444800"}),
     ];
     // every near-miss once more in the PAST (2001 is not a leap year either): nbf accepts what sorts before now
     let past: Vec<Value> = v.iter().filter_map(|x| x.as_str()).filter(|s| s.contains("2999")).map(|s| json!(s.replace("2999", "2001"))).collect();
@@ -442,6 +450,19 @@ pub fn build_cases(prop: &str, tier: &str, seed: u64, pools: &Pools) -> Vec<Case
         })
         .collect();
     cases.extend(extra);
+    // every 61st case of any class (incl. the non-timestamps) once more with check_claim on another, matching claim only
+    let extra2: Vec<Case> = cases
+        .iter()
+        .enumerate()
+        .filter(|(i, c)| i % 61 == 7 && !c.also_check_claim)
+        .map(|(_, c)| {
+            let mut d = c.clone();
+            d.also_check_claim = true;
+            d.class = format!("{}+check_claim(other)", c.class);
+            d
+        })
+        .collect();
+    cases.extend(extra2);
     cases
 }
 
@@ -718,4 +739,4 @@ pub fn replay(prop: &str, case: &Value) -> Report {
     r
 }
 
-pub const RULE: &str = "payloads {\"exp\"|\"nbf\": value} are crafted at the core layer and parsed with PasetoParser::default(). Values: 21 instants (now-2s, -1min, -1h, -1d, -1y, 2000-01-01, 1971; now+60s, +1h, +1d, +1y, 2999, 9000-01-01, and now + {2^31, 2^32 seconds, 2^63 ns -/+ 1 min, 475 y, 2^64 ns, 3170 y}; plus the edges of the four-digit-year range: 0000-01-01, 0000-12-31, 0001-01-01 and instants at / just beyond 9999-12-31T23:59:59Z rendered with the (negative) offsets that keep the local year at 9999) rendered by the harness's own calendar arithmetic with EVERY UTC offset -23:59..+23:59 x 0..9 fractional digits (strict grammar), 'Z', '-00:00' and lenient variants (space / 't' separators and 'z', each also combined with 'Z') — full space on v4.local (thorough: all four local protocols and v2/v4 public), 500 (thorough 60000) sampled renderings on each other protocol; a catalogue of ~90 non-timestamp values (numbers, booleans, arrays, objects, empty string, near-miss date strings — impossible months/days/hours, ISO 8601 forms that RFC 3339 excludes — each in the future (2999) and in the past (2001)) plus random text; null; absent; a sample of the strict cases and the grid once more with check_claim(<the token's own value>) registered on the default parser (the time check must still apply); C12 additionally the 3x3 grid of (exp, nbf) in {past, future, absent} x 3 offsets. Plus a VIRTUAL-CLOCK sweep through the hook verif::set_now: 225 (thorough 3025) values of 'now' (year/leap-day boundaries, 2^31/2^32 s, the i64-nanosecond limit 2262-04-11, up to year 8999, random, odd sub-second parts) x 27 distances from +-1 ns to +-950 years x sampled offsets, all with 9 fraction digits: exp accepted iff instant > now, nbf accepted iff instant < now (== now not decided). Plus clock-progress histories on all 8 protocols: a claim 1.5 s in the future is parsed, 2.6 s pass, and the SAME parser object (and a fresh one) must now give the opposite answer — also when the last parse before the pause was a REFUSED one (a clock reading kept from a failing parse must not judge the next). Oracle: instant known by construction; strict renderings decide both ways, lenient renderings must merely never be accepted when out of window. distinct_nontrivial = distinct (protocol, outcome, class, instant, offset, fraction length, style) tuples";
+pub const RULE: &str = "payloads {\"exp\"|\"nbf\": value} are crafted at the core layer and parsed with PasetoParser::default(). Values: 21 instants (now-2s, -1min, -1h, -1d, -1y, 2000-01-01, 1971; now+60s, +1h, +1d, +1y, 2999, 9000-01-01, and now + {2^31, 2^32 seconds, 2^63 ns -/+ 1 min, 475 y, 2^64 ns, 3170 y}; plus the edges of the four-digit-year range: 0000-01-01, 0000-12-31, 0001-01-01 and instants at / just beyond 9999-12-31T23:59:59Z rendered with the (negative) offsets that keep the local year at 9999) rendered by the harness's own calendar arithmetic with EVERY UTC offset -23:59..+23:59 x 0..9 fractional digits (strict grammar), 'Z', '-00:00' and lenient variants (space / 't' separators and 'z', each also combined with 'Z') — full space on v4.local (thorough: all four local protocols and v2/v4 public), 500 (thorough 60000) sampled renderings on each other protocol; a catalogue of ~90 non-timestamp values (numbers, booleans, arrays, objects, empty string, near-miss date strings — impossible months/days/hours, ISO 8601 forms that RFC 3339 excludes — each in the future (2999) and in the past (2001)) plus random text; null; absent; a sample of the strict cases and the grid once more with check_claim(<the token's own value>) registered on the default parser, and every 61st case of any class with check_claim on ANOTHER claim that the token satisfies (the time checks must still all apply); C12 additionally the 3x3 grid of (exp, nbf) in {past, future, absent} x 3 offsets. Plus a VIRTUAL-CLOCK sweep through the hook verif::set_now: 225 (thorough 3025) values of 'now' (year/leap-day boundaries, 2^31/2^32 s, the i64-nanosecond limit 2262-04-11, up to year 8999, random, odd sub-second parts) x 27 distances from +-1 ns to +-950 years x sampled offsets, all with 9 fraction digits: exp accepted iff instant > now, nbf accepted iff instant < now (== now not decided). Plus clock-progress histories on all 8 protocols: a claim 1.5 s in the future is parsed, 2.6 s pass, and the SAME parser object (and a fresh one) must now give the opposite answer — also when the last parse before the pause was a REFUSED one (a clock reading kept from a failing parse must not judge the next). Oracle: instant known by construction; strict renderings decide both ways, lenient renderings must merely never be accepted when out of window. distinct_nontrivial = distinct (protocol, outcome, class, instant, offset, fraction length, style) tuples";
